@@ -2,7 +2,8 @@
 # usage: try_patch.sh <patch.diff> <PROP> [more PROPs...]   (env VERIF_RUNS optional)
 # applies the patch to /repo, runs the quick check(s), reverts /repo.
 P="$1"; shift
-git -C /repo apply "$P" || { echo "patch does not apply"; exit 2; }
+git -C /repo apply "$P" 2>/dev/null || git -C /repo apply -3 "$P" 2>/dev/null || (cd /repo && patch -p1 -s --fuzz=3 < "$P") || { echo "patch does not apply"; git -C /repo checkout -- .; exit 2; }
+git -C /repo reset -q
 for prop in "$@"; do
     out=$(cd /verif && ./check "$prop" quick 2>&1)
     echo "$out" | grep -E "^violated|^VIOLATION|^KNOWN|HARNESS|^$prop quick" | cut -c1-400
